@@ -376,6 +376,19 @@ class Gen:
             self.features.add("opid_fastapi")
         else:
             self.features.add("opid_absent")
+        if "operationId" in op and self.ops and r.random() < self.prof.get("p_dup_opid", 0.0):
+            prev = r.choice(self.ops).get("operationId")
+            if prev:
+                variant = r.choice(["same", "recase", "suffix2"])
+                if variant == "same":
+                    op["operationId"] = prev
+                elif variant == "recase":
+                    import re as _re
+                    op["operationId"] = (_re.sub(r"([a-z0-9])([A-Z])", r"\1_\2", prev).lower() if prev != prev.lower()
+                                         else "".join(w.title() if i else w for i, w in enumerate(prev.split("_"))))
+                else:
+                    op["operationId"] = prev + "_2"
+                self.features.add("opid_collision")
         tags_mode = r.random()
         tags: list[str] = []
         if self.prof.get("single_tag"):
@@ -468,7 +481,10 @@ class Gen:
             sch, e = self.response_schema()
             responses[primary] = {"description": "ok", "content": {"application/json": {"schema": sch}}}
             rexp[primary] = {"content": "json", "schema": e}
-        if r.random() < self.prof["p_multi2xx"]:
+        is_stream = rexp.get(primary, {}).get("content") in ("sse", "binary", "ndjson")
+        if is_stream and "stream_with_secondary_2xx" in self.allow:
+            self.features.add("stream_with_secondary_2xx")
+        if r.random() < self.prof["p_multi2xx"] and (not is_stream or "stream_with_secondary_2xx" in self.allow):
             second = r.choice([c for c in ["200", "201", "202", "204"] if c != primary])
             if second == "204":
                 responses[second] = {"description": "nothing"}
